@@ -55,6 +55,17 @@ def _contains(c, x):
     return x in c
 
 
+def _is_layer(pkt, name):
+    p = pkt
+    for _i in range(16):
+        if p is None or type(p).__name__ == 'NoPayload':
+            return False
+        if type(p).__name__ == name:
+            return True
+        p = getattr(p, 'payload', None)
+    return False
+
+
 def _lookup(d, k):
     try:
         return d[k]
@@ -73,6 +84,7 @@ BASE = {
     'dict_put': lambda d, k, v: dict(list(d.items()) + [(k, v)]),
     'dict_del': lambda d, k: {a: b for a, b in d.items() if a != k},
     'is_int_str': lambda s: isinstance(s, str) and s.isdigit(), 'int_of_str': int,
+    'is_layer': _is_layer, 'bool': bool,
     'min': min, 'max': max, 'len': len, 'str': str, 'int': int, 'True': True, 'False': False, 'None': None,
 }
 
@@ -98,6 +110,13 @@ class _QuantLifter(ast.NodeTransformer):
 
     def visit_Call(self, node):
         node = self.generic_visit(node)
+        if isinstance(node.func, ast.Name) and node.func.id == 'implies' and len(node.args) == 2:
+            # lazy, as in the symbolic translation: the consequent is not evaluated when the premise is false
+            return ast.copy_location(ast.BoolOp(op=ast.Or(), values=[
+                ast.UnaryOp(op=ast.Not(), operand=node.args[0]),
+                ast.Call(func=ast.Name(id='bool', ctx=ast.Load()), args=[node.args[1]], keywords=[])]), node)
+        if isinstance(node.func, ast.Name) and node.func.id == 'ite' and len(node.args) == 3:
+            return ast.copy_location(ast.IfExp(test=node.args[0], body=node.args[1], orelse=node.args[2]), node)
         if isinstance(node.func, ast.Name) and node.func.id in ('forall', 'exists') and len(node.args) == 4:
             var = node.args[0].id
             gen = ast.GeneratorExp(elt=node.args[3], generators=[ast.comprehension(
